@@ -183,6 +183,21 @@ func ruleCollectPackages(c *core.Ctx) {
 			}
 		}
 		c.Check(hasErr && hasOK, rule, "collectPackages/namespace conflict is an error", d.Pos(), "a namespace claimed by two different files returns an error", "the namespace-conflict branch does not return an error")
+		// the shortcut hands back the package that WAS collected (whose imports are resolved), not the freshly read
+		// descriptor: every error-free return of the found-branch returns the value looked up in the collected map
+		okSame, nOK := true, 0
+		for _, r := range returnsIn(regionOf(sf, foundSucc)) {
+			if !errResultNil(r) || len(r.Results) < 2 {
+				continue
+			}
+			nOK++
+			v := r.Results[0]
+			if lk := mapLookupOn(v, collP); lk == nil {
+				okSame = false
+			}
+		}
+		c.Check(okSame && nOK > 0, rule, "collectPackages/shortcut returns the collected package", d.Pos(), "the already-collected branch returns the entry of the collected map",
+			"the already-collected branch returns something other than the entry of the collected map: a package reached over a second import path is represented by a second PackageInfo whose own imports were never resolved (nil Package pointers downstream)")
 	}
 	// (2)(3) recursive calls
 	recs := callsIn(info, d.Body, f)
